@@ -68,6 +68,10 @@ def check(ctx: Ctx) -> None:
     # wall-clock now minus its mtime (a monotonic 'now' minus an epoch mtime is hugely negative: never stale)
     from .c19 import fallback_break_only_when_stale
     fallback_break_only_when_stale(ctx, "C03.R15")
+    from .common import numbers_not_truth_tested
+    numbers_not_truth_tested(ctx, "C03.R16", ("metadata_manager",), "version numbers: the pointer to v0 written by table creation")
+    from .c19 import r3 as c19_r3_
+    c19_r3_(ctx, "C03.R17")
 
 
 def r5(ctx: Ctx) -> None:
